@@ -12,4 +12,5 @@ echo "$out" | grep -E "VIOLATION|KNOWN-FINDING|signature=|MACHINERY|error(\[|:)"
 echo "$out" | tail -1
 echo "exit=$code"
 git -C /repo checkout -- .
+(cd /verif && cargo build --release -q --offline 2>/dev/null)
 exit $code
